@@ -53,7 +53,20 @@ theorem size_non_array_lax (c : Ctx) (item : ItemK) (s : St) (nx : Option Node) 
 theorem size_non_array_strict (c : Ctx) (item : ItemK) (s : St) (nx : Option Node) (v : Item) (f : Found)
     (hstrict : c.lax = false) (hig : s.ignoreSE = false) (hv : v.isArr = false) :
     execMethodSize c item s nx v f = returnVerboseError s f := by
+  cases v <;> simp_all [execMethodSize, Item.isArr, structural]
+
+/-- strict mode: `.size()` of a non-array is a *structural* mismatch (repair D32) -/
+theorem size_non_array_strict_structural (c : Ctx) (item : ItemK) (s : St) (nx : Option Node) (v : Item)
+    (f : Found) (hstrict : c.lax = false) (hv : v.isArr = false) :
+    execMethodSize c item s nx v f = structural s f := by
   cases v <;> simp_all [execMethodSize, Item.isArr]
+
+/-- strict mode below `.**` (structural errors ignored): `.size()` of a non-array yields nothing — not 1
+(repair D32) — and changes neither the state nor the items found so far -/
+theorem size_below_any_skips (c : Ctx) (item : ItemK) (s : St) (nx : Option Node) (v : Item) (f : Found)
+    (hstrict : c.lax = false) (hig : s.ignoreSE = true) (hv : v.isArr = false) :
+    execMethodSize c item s nx v f = ⟨s, f, .notFound, none⟩ := by
+  cases v <;> simp_all [execMethodSize, Item.isArr, structural]
 
 /-! ### rejected input types -/
 
